@@ -52,6 +52,7 @@ inductive OtoCmdA (α : Type) where
   | mkIter (ps : List (α × α))                               -- `it = iter([...])`, kept
   | next (i : Nat)                                           -- `next(it, None)` by the caller
   | new (a : Arg α) (kw : List (α × α))                      -- `OneToOne(arg, **kw)`
+  | newAs (a : Arg α) (kw hint : List (α × α))               -- the same, the items it ended up with known
   | unique (a : Arg α) (kw : List (α × α))                   -- `OneToOne.unique(arg, **kw)`
   | copy (r : Nat) (side : Bool)
   | op (r : Nat) (side : Bool) (op : OtoOp α)
@@ -64,6 +65,7 @@ def lowerCmd (st : OtoSt α) : OtoCmdA α → Option (Option (OtoCmd α) × List
   | .mkIter ps => some (none, st.iters ++ [ps])
   | .next i => (st.iters[i]?).map fun rest => (none, st.iters.set i rest.tail)
   | .new a kw => (takeArg st a).map fun p => (some (.new (.pairs (p.1 ++ putAll [] kw))), p.2)
+  | .newAs a kw hint => (takeArg st a).map fun p => (some (.newAs (.pairs (p.1 ++ putAll [] kw)) hint), p.2)
   | .unique a kw => (takeArg st a).map fun p => (some (.unique (.pairs (p.1 ++ putAll [] kw))), p.2)
   | .copy r side => some (some (.copy r side), st.iters)
   | .op r side op => some (some (.op r side op), st.iters)
